@@ -144,6 +144,13 @@ def run_shard(desc):
                     hid += 1
                     steps.append({"op": "reg_infix", "name": nm, "prec": prec, "type": "CALC", "assoc": assoc, "beh": {"id": hid, "ret": "tag"}})
                     meta.append(None)
+                if phase == 0:
+                    for wn, role in (("pct", "postfix"), ("bang2", "postfix"), ("neg2", "prefix")):
+                        if rnd.random() < 0.7:
+                            (tab.postfix if role == "postfix" else tab.prefix).add(wn)
+                            hid += 1
+                            steps.append({"op": "reg_" + role, "name": wn, "beh": {"id": hid, "ret": "tag"}})
+                            meta.append(None)
                 tg = gen.TreeGen(rnd, table=tab, leafp=0.3)
                 tg.infix = names * 6 + rnd.sample(sorted(ref.BUILTIN_INFIX), 8)
                 for _ in range(40):
